@@ -161,6 +161,8 @@ def cells_pool():
         [("txt", "plain"), ("mid", True), ("txt", "slanted")], [("txt", "a"), ("mid", True), ("txt", "b"), ("mid", False), ("txt", "c")],
         [("txt", "ABX"), ("bs",), ("txt", "C")], [("spc", "♪"), ("txt", " la la "), ("spc", "♪")], [("txt", "odd")],
         [("ext", "¡"), ("txt", "Hola!")], [("txt", "no I I said")], [("txt", "go a a a a a away")],
+        # an italic run that ends in a typed blank and is closed in the middle of the row: the blank stays
+        [("txt", "x"), ("mid", True), ("txt", "AB "), ("mid", False), ("txt", "DE")],
         [("txt", "warning"), ("bg", 2), ("txt", " sign")], [("txt", "mark "), ("bg", 4), ("txt", "up")],
     ]
 
